@@ -72,7 +72,7 @@ def prepare(trs):
                       "out": "ok" if e["out"] == "ok" else ("refused" if e["out"] in ("ValueError", "TypeError") else e["out"]),
                       "n": e["n"], "nv": e["nv"], "nt": e["nt"], "stored_sig": "?", "stored_path": "?"}
                 if e["out"] == "ok":
-                    st = [x for x in (e.get("stored") or []) if x["rpm"] == r]
+                    st = [x for x in (e.get("stored") or []) if x["rpm"] == r and x["srpm"] == (srpm if srpm != "none" else r)]
                     if len(st) == 1:
                         ev["stored_sig"], ev["stored_path"] = _s(st[0]["sigkey"]), st[0]["path"]
                 evs.append(ev)
